@@ -49,22 +49,30 @@ def install_singlelane_wrappers():
     from mbt import detsched
     from mpservice import _queues
 
-    orig_put = _queues.SingleLane.put
-    orig_get = _queues.SingleLane.get
+    # Events are logged at the very moment the deque changes (inside `append` / `popleft`, mutex held): `SingleLane.get`
+    # and `put` still call `notify()` - whose `_is_owned()` try-lock is a scheduling point - between the change and their
+    # return, and the other side reads `empty()` / `full()` / `qsize()` lock-free.
+    import collections
 
-    def put(self, item, block=True, timeout=None):
-        orig_put(self, item, block, timeout)
-        if detsched.current() is not None:
-            detsched.emit('Put', qlen=len(self._queue), **classify(item))
+    class LogDeque(collections.deque):
+        def append(self, item):
+            collections.deque.append(self, item)
+            if detsched.current() is not None:
+                detsched.emit('Put', qlen=len(self), **classify(item))
 
-    def get(self, block=True, timeout=None):
-        z = orig_get(self, block, timeout)
-        if detsched.current() is not None:
-            detsched.emit('Get', qlen=len(self._queue), **classify(z))
-        return z
+        def popleft(self):
+            z = collections.deque.popleft(self)
+            if detsched.current() is not None:
+                detsched.emit('Get', qlen=len(self), **classify(z))
+            return z
 
-    _queues.SingleLane.put = put
-    _queues.SingleLane.get = get
+    orig_init = _queues.SingleLane.__init__
+
+    def init(self, *a, **k):
+        orig_init(self, *a, **k)
+        self._queue = LogDeque(self._queue)
+
+    _queues.SingleLane.__init__ = init
 
     # lock-free reads of shared state (`empty()`, `full()`, `qsize()`): a scheduling point right AFTER the value was read,
     # so that check-then-act sequences built on them can be interleaved with the other side
